@@ -137,6 +137,61 @@ fn real_connect() -> ConnectFn {
     unsafe { std::mem::transmute::<usize, ConnectFn>(p) }
 }
 
+type SendFn = unsafe extern "C" fn(libc::c_int, *const libc::c_void, libc::size_t, libc::c_int) -> libc::ssize_t;
+
+fn real_send() -> SendFn {
+    static F: OnceLock<usize> = OnceLock::new();
+    let p = *F.get_or_init(|| unsafe { next_sym("send") as usize });
+    unsafe { std::mem::transmute::<usize, SendFn>(p) }
+}
+
+thread_local! {
+    /// (bytes offered, accepted by the kernel) for every send(2) on a datagram socket of this thread
+    static UDP_SEND_LOG: RefCell<Option<Vec<(usize, bool)>>> = const { RefCell::new(None) };
+}
+
+/// start recording send(2) calls on datagram sockets made by this thread
+pub fn record_udp_sends() {
+    UDP_SEND_LOG.with(|l| *l.borrow_mut() = Some(Vec::new()));
+}
+
+/// what was recorded since `record_udp_sends` (recording goes on)
+pub fn udp_sends() -> Vec<(usize, bool)> {
+    UDP_SEND_LOG.with(|l| l.borrow().clone().unwrap_or_default())
+}
+
+pub fn stop_recording_udp_sends() {
+    UDP_SEND_LOG.with(|l| *l.borrow_mut() = None);
+}
+
+/// # Safety
+/// libc ABI
+#[no_mangle]
+pub unsafe extern "C" fn send(fd: libc::c_int, buf: *const libc::c_void, len: libc::size_t, flags: libc::c_int) -> libc::ssize_t {
+    let r = real_send()(fd, buf, len, flags);
+    let recording = UDP_SEND_LOG.try_with(|l| l.try_borrow().map(|l| l.is_some()).unwrap_or(false)).unwrap_or(false);
+    if recording {
+        let saved = *libc::__errno_location();
+        let mut sock_type: libc::c_int = 0;
+        let mut sl = std::mem::size_of::<libc::c_int>() as libc::socklen_t;
+        libc::getsockopt(fd, libc::SOL_SOCKET, libc::SO_TYPE, &mut sock_type as *mut _ as *mut libc::c_void, &mut sl);
+        if sock_type == libc::SOCK_DGRAM {
+            let would_block = r < 0 && (saved == libc::EAGAIN || saved == libc::EWOULDBLOCK);
+            if !would_block {
+                let _ = UDP_SEND_LOG.try_with(|l| {
+                    if let Ok(mut l) = l.try_borrow_mut() {
+                        if let Some(v) = l.as_mut() {
+                            v.push((len, r >= 0));
+                        }
+                    }
+                });
+            }
+        }
+        *libc::__errno_location() = saved;
+    }
+    r
+}
+
 fn real_gai() -> GaiFn {
     static F: OnceLock<usize> = OnceLock::new();
     let p = *F.get_or_init(|| unsafe { next_sym("getaddrinfo") as usize });
